@@ -723,8 +723,10 @@ func hlDisjoint(pls [][]hlPlacement, chosen []hlPlacement) bool {
 
 // hlCheckProperty evaluates the clauses of C20 on one BestFragments answer for a valid text with
 // well-formed locations.  Returns "" or the key of the violated clause.
-func hlCheckProperty(orig []byte, m [][]hlLoc, fs, num int, htmlFmt bool, out [][]byte) (key, reason string) {
-	locs := hlFlatten(m)
+// truth = the matched term occurrences the marks are judged against (for real searches: recomputed from
+// the stored text; otherwise the given locations)
+func hlCheckProperty(orig []byte, truth [][]hlLoc, fs, num int, htmlFmt bool, out [][]byte) (key, reason string) {
+	locs := hlFlatten(truth)
 	want := num
 	if want < 0 {
 		want = 0
@@ -804,8 +806,51 @@ func hlAnalyzers() []hlAnalyzerSpec {
 }
 
 type hlHit struct {
-	text []byte
-	m    [][]hlLoc
+	text   []byte
+	m      [][]hlLoc // dm.Locations["f"], terms sorted
+	truth  [][]hlLoc // occurrences of the query's terms in the stored text, recomputed with the analyzer
+	locErr string    // non-empty: dm.Locations differs from the recomputation
+	query  string
+	rank   int // position of the hit in the result list (0 = best)
+}
+
+// hlOccurrences analyses text and query independently of the index: for every term of the analysed
+// query that occurs in the analysed text, the (Start, End) of all its occurrences, terms sorted.
+func hlOccurrences(an *analysis.Analyzer, text []byte, query string) (terms []string, occ map[string][]hlLoc) {
+	qterms := map[string]bool{}
+	for _, t := range an.Analyze([]byte(query)) {
+		qterms[string(t.Term)] = true
+	}
+	occ = map[string][]hlLoc{}
+	for _, t := range an.Analyze(append([]byte{}, text...)) {
+		if qterms[string(t.Term)] {
+			occ[string(t.Term)] = append(occ[string(t.Term)], hlLoc{t.Start, t.End})
+		}
+	}
+	for t := range occ {
+		terms = append(terms, t)
+	}
+	sort.Strings(terms)
+	return terms, occ
+}
+
+func hlLocSetEqual(a, b []hlLoc) bool {
+	as, bs := map[hlLoc]bool{}, map[hlLoc]bool{}
+	for _, l := range a {
+		as[l] = true
+	}
+	for _, l := range b {
+		bs[l] = true
+	}
+	if len(as) != len(bs) {
+		return false
+	}
+	for l := range as {
+		if !bs[l] {
+			return false
+		}
+	}
+	return true
 }
 
 // hlSearchHits indexes docs with the analyzer and returns (stored text, locations of field f) of hits.
@@ -834,6 +879,33 @@ func hlSearchHits(rng *rand.Rand, spec hlAnalyzerSpec, ndocs, nqueries int) ([]h
 		d := bluge.NewDocument(id).AddField(bluge.NewTextField("f", txt).StoreValue().HighlightMatches().WithAnalyzer(spec.an))
 		b.Update(d.ID(), d)
 	}
+	// planted groups: 3..8 documents containing one word a different number of times (1..6) at different
+	// offsets and with fillers of different lengths, so that ONE search returns several hits whose numbers
+	// of locations are not ordered like their ranks
+	var planted []string
+	if spec.name != "keyword" {
+		for g := 0; g < 3; g++ {
+			word := fmt.Sprintf("zq%dx", g)
+			if spec.script == 1 {
+				word = string([]rune{hlCJK[(7*g+1)%len(hlCJK)], hlCJK[(11*g+3)%len(hlCJK)], hlCJK[(13*g+5)%len(hlCJK)]})
+			}
+			planted = append(planted, word)
+			nd := 3 + rng.Intn(6)
+			for i := 0; i < nd; i++ {
+				k := 1 + rng.Intn(6)
+				var sb strings.Builder
+				for c := 0; c < k; c++ {
+					sb.WriteString(hlText(rng, rng.Intn(40*(1+rng.Intn(4))), spec.script, true))
+					sb.WriteString(" " + word + " ")
+				}
+				sb.WriteString(hlText(rng, rng.Intn(60), spec.script, true))
+				id := fmt.Sprintf("p%d_%d", g, i)
+				texts[id] = sb.String()
+				d := bluge.NewDocument(id).AddField(bluge.NewTextField("f", sb.String()).StoreValue().HighlightMatches().WithAnalyzer(spec.an))
+				b.Update(d.ID(), d)
+			}
+		}
+	}
 	if err := wr.Batch(b); err != nil {
 		return nil, err
 	}
@@ -848,10 +920,15 @@ func hlSearchHits(rng *rand.Rand, spec hlAnalyzerSpec, ndocs, nqueries int) ([]h
 	}
 	sort.Strings(ids)
 	var hits []hlHit
-	for q := 0; q < nqueries; q++ {
+	for q := -len(planted); q < nqueries; q++ {
 		src := texts[ids[rng.Intn(len(ids))]]
 		var qs string
-		if spec.name == "keyword" {
+		if q < 0 {
+			qs = planted[-q-1]
+			if rng.Intn(2) == 0 { // together with an ordinary word
+				qs += " " + hlLatin[rng.Intn(len(hlLatin))]
+			}
+		} else if spec.name == "keyword" {
 			qs = src
 		} else if spec.script == 1 {
 			rs := []rune(src)
@@ -878,11 +955,11 @@ func hlSearchHits(rng *rand.Rand, spec hlAnalyzerSpec, ndocs, nqueries int) ([]h
 			qs = strings.Join(parts, " ")
 		}
 		query := bluge.NewMatchQuery(qs).SetAnalyzer(spec.an).SetField("f")
-		it, err := rd.Search(context.Background(), bluge.NewTopNSearch(6, query).IncludeLocations())
+		it, err := rd.Search(context.Background(), bluge.NewTopNSearch(10, query).IncludeLocations())
 		if err != nil {
 			return nil, err
 		}
-		for {
+		for rank := 0; ; rank++ {
 			dm, err := it.Next()
 			if err != nil {
 				return nil, err
@@ -919,7 +996,24 @@ func hlSearchHits(rng *rand.Rand, spec hlAnalyzerSpec, ndocs, nqueries int) ([]h
 					m[i] = append(m[i], hlLoc{l.Start, l.End})
 				}
 			}
-			hits = append(hits, hlHit{stored, m})
+			// independent recomputation of what the locations of this hit must be
+			eterms, occ := hlOccurrences(spec.an, stored, qs)
+			truth := make([][]hlLoc, len(eterms))
+			for i, t := range eterms {
+				truth[i] = occ[t]
+			}
+			locErr := ""
+			if len(eterms) != len(terms) {
+				locErr = fmt.Sprintf("terms with locations %q, terms of the query occurring in the text %q", terms, eterms)
+			} else {
+				for i, t := range terms {
+					if t != eterms[i] || !hlLocSetEqual(m[i], truth[i]) {
+						locErr = fmt.Sprintf("term %q: locations %v, occurrences in the stored text %v", t, m[i], truth[i])
+						break
+					}
+				}
+			}
+			hits = append(hits, hlHit{text: stored, m: m, truth: truth, locErr: locErr, query: qs, rank: rank})
 		}
 	}
 	return hits, nil
@@ -957,7 +1051,10 @@ func runHighlight(o Opts) error {
 
 	// best runs BestFragments in the child, emits the correspondence case when the order of the
 	// locations is determined, and evaluates the property.
-	best := func(kind string, orig []byte, m [][]hlLoc, fs, num int, htmlFmt bool, real bool) {
+	best := func(kind string, orig []byte, m [][]hlLoc, fs, num int, htmlFmt bool, real bool, truth [][]hlLoc) {
+		if truth == nil {
+			truth = m
+		}
 		j := &hlJob{Kind: "best", HTML: htmlFmt, FS: fs, Num: num, Orig: orig, TLM: m}
 		r := child.call(j)
 		input := map[string]interface{}{"text": string(orig), "text_hex": fmt.Sprintf("%x", orig), "locations": m, "fragment_size": fs, "num": num, "html": htmlFmt}
@@ -976,9 +1073,12 @@ func runHighlight(o Opts) error {
 		} else {
 			w.Count("best_order_dependent_no_case", 1)
 		}
-		if r.Panic == "" && utf8.Valid(orig) && wellFormed(orig, m) && (htmlFmt || !bytes.Contains(orig, []byte{0x1b})) {
+		if r.Panic == "" && utf8.Valid(orig) && (real || wellFormed(orig, m)) && (htmlFmt || !bytes.Contains(orig, []byte{0x1b})) {
 			w.OracleEval(1)
-			if key, why := hlCheckProperty(orig, m, fs, num, htmlFmt, r.Strs); key != "" {
+			if key, why := hlCheckProperty(orig, truth, fs, num, htmlFmt, r.Strs); key != "" {
+				if real {
+					input["matched_term_occurrences"] = truth
+				}
 				input["out"] = hlStrs(r.Strs)
 				input["real_search"] = real
 				w.OracleFail(key, why, input)
@@ -1045,8 +1145,20 @@ func runHighlight(o Opts) error {
 			return fmt.Errorf("search with analyzer %s: %w", spec.name, err)
 		}
 		w.Count("real_search_hits:"+spec.name, len(hits))
+		// every hit of every search (also the non-top ones): the locations handed out with the hit are exactly
+		// the occurrences of the query's terms in the hit's own stored text
+		for _, h := range hits {
+			w.OracleEval(1)
+			if h.rank > 0 {
+				w.Count("real_search_non_top_hits", 1)
+			}
+			if h.locErr != "" {
+				w.OracleFail("hit-locations-not-term-occurrences", h.locErr,
+					map[string]interface{}{"analyzer": spec.name, "query": h.query, "rank": h.rank, "text": string(h.text), "locations": h.m})
+			}
+		}
 		for hi, h := range hits {
-			if !o.Thorough() && hi >= 32 {
+			if !o.Thorough() && hi >= 40 {
 				break
 			}
 			if !wellFormed(h.text, h.m) {
@@ -1059,10 +1171,10 @@ func runHighlight(o Opts) error {
 				if rng.Intn(12) == 0 {
 					num = rng.Intn(2) - 1 // 0 or -1
 				}
-				best("best-real-"+spec.name, h.text, h.m, fs, num, rng.Intn(2) == 0, true)
+				best("best-real-"+spec.name, h.text, h.m, fs, num, rng.Intn(2) == 0, true, h.truth)
 			}
 			if hi%5 == 0 { // default highlighters
-				best("best-real-"+spec.name, h.text, h.m, 200, 1, hi%2 == 0, true)
+				best("best-real-"+spec.name, h.text, h.m, 200, 1, hi%2 == 0, true, h.truth)
 			}
 		}
 	}
@@ -1082,7 +1194,7 @@ func runHighlight(o Opts) error {
 		if rng.Intn(15) == 0 {
 			m = nil
 		}
-		best("best-generated", orig, m, hlFragSize(rng), rng.Intn(5), rng.Intn(2) == 0, false)
+		best("best-generated", orig, m, hlFragSize(rng), rng.Intn(5), rng.Intn(2) == 0, false, nil)
 	}
 
 	// ---- 4. adversarial locations and invalid texts: no panic + correspondence
@@ -1116,19 +1228,19 @@ func runHighlight(o Opts) error {
 				fs = 0
 			}
 		}
-		best("best-adversarial", orig, m, fs, rng.Intn(4), rng.Intn(2) == 0, false)
+		best("best-adversarial", orig, m, fs, rng.Intn(4), rng.Intn(2) == 0, false, nil)
 	}
 	// the replayed defect D5 and its neighbours, always
 	for _, l := range []hlLoc{{-3, 2}, {5, 2}, {5, 20}, {15, 20}, {0, 0}, {11, 11}, {-1, -1}, {12, 12}} {
 		for _, htmlFmt := range []bool{true, false} {
-			best("best-d5", []byte("hello world"), [][]hlLoc{{l}}, 200, 1, htmlFmt, false)
+			best("best-d5", []byte("hello world"), [][]hlLoc{{l}}, 200, 1, htmlFmt, false, nil)
 		}
 	}
 	// valid text with the replacement character (fix 1bc04a0) and nested locations (fix 0996d48)
-	best("best-fffd", []byte("bad � hello world"), [][]hlLoc{{{8, 13}}}, 200, 1, true, false)
-	best("best-fffd", []byte("hello �"), [][]hlLoc{{{0, 5}}}, 200, 1, false, false)
-	best("best-nested", []byte("quick brown fox jumps"), [][]hlLoc{{{0, 15}}, {{6, 11}}}, 200, 1, true, false)
-	best("best-nested", []byte("abcdef ghij"), [][]hlLoc{{{0, 6}}, {{1, 3}}}, 200, 1, false, false)
+	best("best-fffd", []byte("bad � hello world"), [][]hlLoc{{{8, 13}}}, 200, 1, true, false, nil)
+	best("best-fffd", []byte("hello �"), [][]hlLoc{{{0, 5}}}, 200, 1, false, false, nil)
+	best("best-nested", []byte("quick brown fox jumps"), [][]hlLoc{{{0, 15}}, {{6, 11}}}, 200, 1, true, false, nil)
+	best("best-nested", []byte("abcdef ghij"), [][]hlLoc{{{0, 6}}, {{1, 3}}}, 200, 1, false, false, nil)
 
 	// ---- 5. components called directly with explicit (possibly unsorted / adversarial) lists
 	nC := 100 * scale
